@@ -58,6 +58,11 @@ func run(r *vk.Run) {
 		regen(r, "wrapper")
 	}
 
+	// ---- registry under concurrent Add/Remove ----
+	if r.Selected("C12/registry/concurrent") {
+		concurrentRegistry(r)
+	}
+
 	// ---- forwarding ----
 	perMethod := r.Pick(300, 20000)
 	nMethods := 0
